@@ -107,8 +107,10 @@ func (s *Solver) start() {
 		s.send("(set-logic ALL)\n")
 	}
 	s.send("(set-option :produce-models true)\n")
-	if s.Bin != "cvc5" {
+	if s.Bin == "z3" {
 		s.send(fmt.Sprintf("(set-option :timeout %d)\n", s.TimeoutMs))
+	} else if s.Bin == "z3-new" {
+		// no solver-side timer for z3 5.1.0 (its timer thread can live-lock); the watchdog decides
 	} else {
 		s.send(fmt.Sprintf("(set-option :tlimit-per %d)\n", s.TimeoutMs))
 	}
@@ -260,12 +262,14 @@ func (s *Solver) Check(assertions []*Term, wantModel bool, extraVars []*Term) (R
 	} else {
 		// run the full preprocessing/bit-blasting pipeline on the current goal: the
 		// plain incremental core is orders of magnitude slower on these BV problems
-		fmt.Fprintf(&s.buf, "(check-sat-using (try-for default %d))\n", s.TimeoutMs)
+		// (no try-for: z3 5.1.0's timer thread can live-lock on trivial goals; the watchdog
+		// below enforces the time limit by killing and restarting the solver)
+		s.buf.WriteString("(check-sat-using default)\n")
 	}
 	// the watchdog covers sending as well: a solver that is slow to read (huge terms)
 	// blocks the write
 	proc := s.cmd.Process
-	wd := time.AfterFunc(time.Duration(s.TimeoutMs+15000)*time.Millisecond, func() { proc.Kill() })
+	wd := time.AfterFunc(time.Duration(s.TimeoutMs)*time.Millisecond, func() { proc.Kill() })
 	defer wd.Stop()
 	s.send(s.buf.String())
 	res := Unknown
